@@ -118,7 +118,7 @@ def monitor_connect(case, result, ev):
                 # a driver's UnsupportedTargetError is documented to be ignored by sense() with several targets
                 if not (e == '!raise:UnsupportedTargetError:sense' and ntargets != 1):
                     raised = e.split(':')[1]
-            elif e == '!xchg' and case.get('live') == 'llc' and not case.get('noterm'):
+            elif e == '!xchg' and case.get('live') in ('llc', 'dep') and not case.get('noterm'):
                 # "... or when the 'terminate' function returned a true value": the symmetry loop has to ask in
                 # every turn and to end with at most the DISC exchange once the answer was true
                 if terminated:
@@ -491,6 +491,11 @@ CORPUS = [
       'llcact': 't'}, 'initiator, busy link: terminate() must be consulted in every turn of the run loop'),
     ({'live': 'llc', 'busy': 1, 'llcp': {'role': 'target', 'connect': 1, 'release': 1}, 'cbs': 'TN', 'term': '0001',
       'llcact': 't'}, 'target, busy link: terminate() must be consulted in every turn of the run loop'),
+    # live: real nfc.dep.Initiator.activate under connect(llcp=...) with a Type 1 Tag (no SEL_RES) in the field
+    ({'live': 'dep', 'penv': 't1', 'llcp': {'role': 'initiator', 'connect': 1, 'release': 1, 'acm': False, 'brs': 2},
+      'cbs': 'TN', 'term': '001'}, 'a Type 1 Tag in the field: the DEP search must not raise, connect() returns None'),
+    ({'live': 'dep', 'penv': 't1', 'llcp': {'role': None, 'connect': 1, 'release': 1, 'acm': True, 'brs': 0},
+      'cbs': 'TN', 'term': '001'}, 'a Type 1 Tag in the field, both roles, active mode search first'),
     # no terminate option at all (default lambda: False): the run ends by a return
     ({'rdwr': {'targets': 'A', 'connect': 1, 'iterations': 1}, 'cbs': 'F', 'noterm': 1, 'sense': [['f']], 'tagact': 't'},
      'no terminate option, on-connect false: the tag object is returned'),
@@ -516,7 +521,8 @@ def main():
                       'the model describes the tree with fixes/c18-return-true-after-release.diff applied (commit ec7a677)',
                       'live parts: real nfc.tag.activate / presence checks of every tag class over canned healthy-tag '
                       'answers with injected Timeout/Transmission/Protocol errors; real LogicalLinkController over scripted '
-                      'MAC objects (the NFC-DEP layer itself is the subject of C04/C19)']
+                      'MAC objects, and real nfc.dep.Initiator / Target activation over the scripted device with a scripted '
+                      'remote peer answering ATR / PSL / DEP / DSL / RLS (NFC-DEP data exchange itself is the subject of C04/C19)']
     ck.coq(gen=['ConnectSkel'], targets=['Proofs/ConnectSense.vo', 'Proofs/Connect.vo', 'Proofs/ConnectTrace.vo', 'Proofs/ConnectFuel.vo',
                                        'Skel/ConnectSyntax.vo', 'Skel/ConnectRun.vo', 'Gen/ConnectSkel.vo', 'Bridge/Connect.vo'], props='C18')
     mr = ck.model()
@@ -552,7 +558,8 @@ def main():
         expect.append((res + ' | ' + ' '.join(vis), 'connect/' + kind, case))
         nontrivial = any(e.startswith(('discover:', 'connect:', 'release:', 'tag_activate', 'llc_activate', 'emulate')) for e in vis)
         canon = lines[-1] if not case.get('live') else lines[-1] + ' %s %s %s %s %s' % (
-            case['live'], case.get('ttype'), case.get('busy'), case.get('xchg'), case.get('peer'))
+            case['live'], case.get('ttype') or case.get('penv'), case.get('busy'), case.get('xchg'), case.get('peer')) + \
+            (json.dumps(case.get('llcp'), sort_keys=True) if case.get('live') == 'dep' else '')
         ck.case(canon, nontrivial, None)
         ck.count(kind)
         for key, what in monitor_connect(case, res, ev):
@@ -640,6 +647,20 @@ def main():
                 if n >= (300 if quick else 30000):
                     for res, ev, case in explore(sk, lim_llc, dom_llc, 0, rng, walks=100 if quick else 2000):
                         observe_connect('live-llc', res, ev, case)
+    # (c) the REAL nfc.dep.Initiator.activate / Target.activate (their sense / listen calls, the evaluation of
+    #     what was found, ATR / PSL exchange) and the real LogicalLinkController under connect(llcp=...): the
+    #     environment presents nothing, a Type 1 / Type 2 / Type 4A tag, a DEP-capable 106A target (with and
+    #     without Type 4A), 212F tags with and without NFCID2 01FE, a Type B tag, an active-mode target, a remote
+    #     initiator; role initiator / target / None, active mode search on / off, bit rate selection 0..2
+    lim_dep = dict(LIM_DFS, term=5, cbs=2, xchg=2, peer=3)
+    dom_dep = dict(DOM_DFS, cbs='TF', xchg='oT', peer='sdx')
+    for penv in ('none', 't1', 't2', 't4a', 'dep106', 't4adep', 'f_tag', 'f_dep', 'tb', 'active', 'rinit'):
+        for role in ('initiator', 'target', None):
+            for acm in (True, False, None):
+                for brs in ((2,) if quick else (0, 1, 2, None)):
+                    sk = {'live': 'dep', 'penv': penv, 'llcp': {'role': role, 'connect': 1, 'release': 1, 'acm': acm, 'brs': brs}}
+                    for res, ev, case in explore(sk, lim_dep, dom_dep, 60 if quick else 3000):
+                        observe_connect('live-dep', res, ev, case)
     # ------------------------------------------------------------------ random option dictionaries, long streams
     for _ in range(1500 if quick else 25000):
         sk = random_structure(rng)
